@@ -24,15 +24,18 @@ VARIABLES l,      \* cursor into Trace
           store,  \* [Keys -> object]
           pass,   \* [PassIds -> pass record]
           lw,     \* [valid, e] the event consumed by the last step
-          hist    \* history: CR keys that have ever stored Succeeded=True / Archived=True
+          hist,   \* history: CR keys that have ever stored Succeeded=True / Archived=True
+          scen    \* description of the current table row (Row event), if any
 
-vars == <<l, store, pass, lw, hist>>
+vars == <<l, store, pass, lw, hist, scen>>
 
 Keys    == { Trace[i].key : i \in DOMAIN Trace }
 \* one slot per controller: passes of the same controller never overlap (MaxConcurrentReconciles=1)
 PassIds == { Trace[i].actor : i \in DOMAIN Trace }
 
 Absent == Trace[1].pre          \* the first event is a Reset whose pre/post are the empty projection
+
+NoRow == [ row |-> -1 ]
 
 NoRead == [ valid |-> FALSE, o |-> Absent ]
 NoObs  == [ valid |-> FALSE, present |-> FALSE, passes |-> FALSE, ctrl |-> FALSE ]
@@ -56,6 +59,7 @@ Init == /\ l = 1
         /\ pass = [ p \in PassIds |-> IdlePass ]
         /\ lw = [ valid |-> FALSE, e |-> Trace[1] ]
         /\ hist = [ succeeded |-> {}, archived |-> {} ]
+        /\ scen = NoRow
 
 (* ---------------- helpers over a pass record ---------------- *)
 
@@ -130,6 +134,13 @@ TrReset ==
     /\ store' = [ k \in Keys |-> Absent ]
     /\ pass' = [ p \in PassIds |-> IdlePass ]
     /\ hist' = [ succeeded |-> {}, archived |-> {} ]
+    /\ scen' = NoRow
+    /\ Advance
+
+TrRow ==
+    /\ IsEv("Row")
+    /\ scen' = E.args
+    /\ UNCHANGED <<store, pass, hist>>
     /\ Advance
 
 \* environment: the logged effect is applied; the logged pre-state must be the tracked state
@@ -137,32 +148,32 @@ TrEnv ==
     /\ l <= Len(Trace) /\ E.actor = "env" /\ E.ev # "Crash"
     /\ E.pre = store[E.key]
     /\ SetStore(E.key, E.post)
-    /\ UNCHANGED <<pass, hist>>
+    /\ UNCHANGED <<pass, hist, scen>>
     /\ Advance
 
 TrCrash ==
     /\ IsEv("Crash")
     /\ pass' = [ p \in PassIds |-> [ pass[p] EXCEPT !.active = FALSE ] ]
-    /\ UNCHANGED <<store, hist>>
+    /\ UNCHANGED <<store, hist, scen>>
     /\ Advance
 
 TrPassBegin ==
     /\ IsEv("PassBegin")
     /\ pass' = [ pass EXCEPT ![E.actor] = [ IdlePass EXCEPT !.active = TRUE, !.actor = E.actor, !.target = E.key,
                                             !.oid = E.args.oid, !.strategy = E.args.strategy, !.forced = E.args.forced ] ]
-    /\ UNCHANGED <<store, hist>>
+    /\ UNCHANGED <<store, hist, scen>>
     /\ Advance
 
 TrPassEnd ==
     /\ (IsEv("PassEnd") \/ IsEv("Panic") \/ IsEv("Timeout"))
     /\ pass' = [ pass EXCEPT ![E.actor].active = (E.ev = "Panic") ]
-    /\ UNCHANGED <<store, hist>>
+    /\ UNCHANGED <<store, hist, scen>>
     /\ Advance
 
 \* misc harness events that carry no state
 TrNote ==
     /\ (IsEv("Note") \/ IsEv("Quiesced"))
-    /\ UNCHANGED <<store, pass, hist>>
+    /\ UNCHANGED <<store, pass, hist, scen>>
     /\ Advance
 
 IsRead(ev)  == ev \in {"Get", "DynGet"}
@@ -212,14 +223,14 @@ TrRead ==
                                                            THEN Verdict(pr, k, o) ELSE @,
                                        ![p].calls = @ + 1 ]
           ELSE pass' = [ pass EXCEPT ![p].calls = @ + 1 ]
-    /\ UNCHANGED <<store, hist>>
+    /\ UNCHANGED <<store, hist, scen>>
     /\ Advance
 
 \* dynamic cache bookkeeping and list calls: no store effect
 TrOther ==
     /\ l <= Len(Trace) /\ E.actor \notin {"env", "sim"} /\ E.ev \in {"Watch", "Free", "List", "DynList"}
     /\ pass' = [ pass EXCEPT ![E.actor].calls = @ + 1, ![E.actor].apiErr = @ \/ E.res # "ok" ]
-    /\ UNCHANGED <<store, hist>>
+    /\ UNCHANGED <<store, hist, scen>>
     /\ Advance
 
 Changed(e) == e.pre # e.post
@@ -255,9 +266,10 @@ TrWrite ==
              ![p].statusWritten = @ \/ (k = pr.target /\ E.ev = "StatusUpdate" /\ ok),
              ![p].finRemoved = @ \/ (k = pr.target /\ E.ev = "MergePatch" /\ ok /\ E.args.patch.setsFinalizers
                                      /\ "package-operator.run/cached" \notin Range(E.post.fin)) ]
+    /\ UNCHANGED scen
     /\ Advance
 
-Next == TrReset \/ TrEnv \/ TrCrash \/ TrPassBegin \/ TrPassEnd \/ TrNote \/ TrRead \/ TrOther \/ TrWrite
+Next == TrReset \/ TrRow \/ TrEnv \/ TrCrash \/ TrPassBegin \/ TrPassEnd \/ TrNote \/ TrRead \/ TrOther \/ TrWrite
 
 Spec == Init /\ [][Next]_vars
 
@@ -387,7 +399,7 @@ HadFinalizer(pr) == "package-operator.run/cached" \in Range(pr.snap.fin)
 
 \* removing the finalizer / reporting Archived=True only in a pass that saw every phase done
 Inv_C04_FinalizerHeld ==
-    (CtlWrite /\ ~W.dry /\ W.key = PR.target /\ Teardown(PR) /\ "orphan" \notin Range(PR.snap.fin)
+    (CtlWrite /\ ~W.dry /\ W.key = PR.target /\ Teardown(PR) /\ "orphan" \notin Range(PR.snap.fin) /\ HadFinalizer(PR)
        /\ \/ (W.ev = "MergePatch" /\ W.args.patch.setsFinalizers /\ "package-operator.run/cached" \notin Range(W.args.patch.finalizers))
           \/ (W.ev = "StatusUpdate" /\ CondTrue(W.args.body.cr, "Archived")))
     => \A j \in 1..NPhases(PR) : PhaseGone(PR, j)
@@ -395,8 +407,24 @@ Inv_C04_FinalizerHeld ==
 \* while teardown is unfinished an archived set reports Archived=False
 Inv_C04_ArchivedFalseUntilDone ==
     (StatusEv /\ IsSetActor(W.actor) /\ Teardown(PR) /\ SnapArchived(PR) /\ W.res = "ok"
+       /\ HadFinalizer(PR) /\ "orphan" \notin Range(PR.snap.fin)
        /\ ~(\A j \in 1..NPhases(PR) : PhaseGone(PR, j)))
     => ~CondTrue(W.args.body.cr, "Archived")
+
+\* The statement read as a fact about the cluster: at the instant the finalizer is removed or Archived=True
+\* is written, no object listed in the phases (inline, or in the ObjectSlices the phases reference) is
+\* controlled by the ObjectSet.
+SliceObjsInStore(k) == IF store[k].exists THEN store[k].cr.objects ELSE <<>>
+ListedInStore(pr) ==
+    UNION { Range(pr.snap.cr.phases[j].keys)
+            \cup UNION { Range(SliceObjsInStore(pr.snap.cr.phases[j].slices[i])) : i \in DOMAIN pr.snap.cr.phases[j].slices }
+          : j \in 1..NPhases(pr) }
+
+Inv_C04_NothingControlledWhenReleased ==
+    (CtlWrite /\ ~W.dry /\ W.res = "ok" /\ W.key = PR.target /\ Teardown(PR) /\ "orphan" \notin Range(PR.snap.fin)
+       /\ \/ (W.ev = "MergePatch" /\ W.args.patch.setsFinalizers /\ "package-operator.run/cached" \notin Range(W.args.patch.finalizers))
+          \/ (W.ev = "StatusUpdate" /\ CondTrue(W.args.body.cr, "Archived")))
+    => \A k \in ListedInStore(PR) : k \in Keys => ~IsCtrl(PR, store[k])
 
 ---------------------------------------------------------------------------
 (* C05 deletes only what is controlled, pinned to the inspected version *)
@@ -523,6 +551,31 @@ Inv_C11_Reported ==
        /\ CondIs(PE.status.cr, "Available", "False", "PreflightError"))
     => /\ W.args.requeue
        /\ \A k \in Range(PE.writes) : k \notin ListedObjKeys(PE) \/ (\A k2 \in Range(PhaseObjKeys(PE, PhaseOfObj(PE, k))) : k2 \in PE.dryok)
+
+(* table rows (driver preflight-table): the class of every listed object is known from the Row event, so
+   "passes preflight" is judged by the statement's own rules, not by the code's dry-run calls *)
+IsRow == scen.row >= 0 /\ "classes" \in DOMAIN scen
+
+ClassOf(k) == IF k \in DOMAIN scen.classes THEN scen.classes[k] ELSE "valid"
+
+Violating(k) ==
+    LET c == ClassOf(k) IN
+    \/ c \in {"unknownAPI", "presetOwner", "dryReject"}
+    \/ c \in {"foreignNS", "clusterNoNS", "clusterOwnNS"} /\ scen.flavour \in {"os", "ph"}
+
+Inv_C11_NoWriteIfViolating ==
+    (IsRow /\ ObjReq /\ Rollout(PR) /\ Changed(W))
+    => /\ \A k \in Range(PhaseObjKeys(PR, PhaseOfObj(PR, W.key))) : ~Violating(k)
+       /\ ~scen.hasDup
+
+FirstBad(pr) == { j \in 1..NPhases(pr) : (\E k \in Range(PhaseObjKeys(pr, j)) : Violating(k))
+                                         /\ \A i \in 1..(j - 1) : \A k \in Range(PhaseObjKeys(pr, i)) : ~Violating(k) }
+
+Inv_C11_ViolationReported ==
+    (IsRow /\ PassEnded /\ PE.hasSnap /\ Rollout(PE) /\ ~PE.apiErr /\ (scen.hasDup \/ FirstBad(PE) # {}))
+    => /\ PE.statusWritten
+       /\ CondIs(PE.status.cr, "Available", "False", "PreflightError")
+       /\ W.args.requeue
 
 Inv_C19_NoPanic == ~(lw.valid /\ W.ev \in {"Panic", "Timeout"})
 
